@@ -1118,23 +1118,34 @@ namespace chaiscript {
         }
 
         void process_hex() {
-          if (!hex_matches.empty()) {
+          const bool has_digits = !hex_matches.empty();
+          if (has_digits) {
             auto val = stoll(hex_matches, nullptr, 16);
             match.push_back(char_type(val));
           }
           hex_matches.clear();
           is_escaped = false;
           is_hex = false;
+          if (!has_digits) {
+            throw exception::eval_error("Incomplete hex escape sequence");
+          }
         }
 
         void process_octal() {
+          long long val = 0;
           if (!octal_matches.empty()) {
-            auto val = stoll(octal_matches, nullptr, 8);
+            val = stoll(octal_matches, nullptr, 8);
+          }
+          const bool in_range = val <= 0xFF || sizeof(char_type) > 1;
+          if (!octal_matches.empty() && in_range) {
             match.push_back(char_type(val));
           }
           octal_matches.clear();
           is_escaped = false;
           is_octal = false;
+          if (!in_range) {
+            throw exception::eval_error("Octal escape sequence out of range");
+          }
         }
 
         void process_unicode() {
@@ -1151,8 +1162,11 @@ namespace chaiscript {
           }
           // exactly 4 or 8 hex digits at this point: always convertible, always fits
           const auto ch = static_cast<uint32_t>(std::stoul(digits, nullptr, 16));
-          if (u_size == 4 && ch >= 0xD800 && ch <= 0xDFFF) {
-            throw exception::eval_error("Invalid 16 bit universal character");
+          if (ch >= 0xD800 && ch <= 0xDFFF) {
+            throw exception::eval_error(u_size == 4 ? "Invalid 16 bit universal character" : "Invalid 32 bit universal character");
+          }
+          if (ch > 0x10FFFF) {
+            throw exception::eval_error("Invalid 32 bit universal character");
           }
 
           if (ch < 0x80) {
